@@ -63,6 +63,9 @@ def gen_script(rng):
                 ops.append("cc %d" % i)
             else:
                 ops.append("cl %d" % i)
+            if rng.random() < 0.3:
+                # the same operation through the write-only / read-only view of the channel
+                ops[-1] = "v" + ops[-1][1:]
         elif k == "m":
             ops.append(rng.choice(["ml", "mu", "mu"]) + " %d" % i)
         elif k == "r":
@@ -80,6 +83,39 @@ def gen_script(rng):
     return "sy\trun\t" + ";".join(ops)
 
 
+def boundary_scripts():
+    """every non-blocking sequence of up to 4 channel operations (push / pop / close, directly and through the
+    write-only / read-only views) on one buffered channel, for both channel implementations"""
+    import itertools
+    out = []
+    for mk in ("cn", "nn"):
+        for n in (1, 2, 3, 4):
+            for seq in itertools.product(("cp", "vp", "cg", "vg", "cc", "vc"), repeat=n):
+                buf, closed, ops, tok, ok = 0, False, [], 0, True
+                for o in seq:
+                    base = "c" + o[1]
+                    if base == "cp":
+                        if not closed:
+                            if buf >= 2:
+                                ok = False
+                                break
+                            buf += 1
+                        tok += 1
+                        ops.append("%s 0 %d" % (o, tok))
+                    elif base == "cg":
+                        if buf == 0 and not closed:
+                            ok = False
+                            break
+                        buf = max(0, buf - 1)
+                        ops.append("%s 0" % o)
+                    else:
+                        closed = True
+                        ops.append("%s 0" % o)
+                if ok and any(o[0] == "v" for o in seq) and "cc" in "".join(seq).replace("v", "c"):
+                    out.append("sy\trun\t%s 0 2;%s" % (mk, ";".join(ops)))
+    return out
+
+
 def script_oracle(line, ans):
     """Model-free reading of the property on one script: a python specification of what each call must
     answer (FIFO values, documented errors, never a crash, WaitGroup counting). WaitGroup misuse (negative
@@ -95,6 +131,7 @@ def script_oracle(line, ans):
         if k >= len(outs):
             return None
         o, a = outs[k], op[0]
+        a = {"vp": "cp", "vg": "cg", "vc": "cc", "vl": "cl"}.get(a, a)      # a view is the same channel
         i = int(op[1])
         want = None
         if a in ("cn", "nn"):
@@ -612,7 +649,7 @@ def run(ctx):
         elif "program" in rp:
             run_elk(ctx, [{"id": "replay", "kind": "replay", "src": rp["program"], "want": rp.get("want", ""), "timeout_ms": 8000}])
         return
-    lines = vlib.corpus_lines("C25") + [gen_script(ctx.rng) for _ in range(ctx.n(400, 6000))]
+    lines = vlib.corpus_lines("C25") + boundary_scripts() + [gen_script(ctx.rng) for _ in range(ctx.n(400, 6000))]
     correspond_confirmed(ctx, lines, "sync wrappers")
     # concurrent histories, judged by the certified Lean checker and by the python contract
     hist_ok = True
